@@ -453,3 +453,95 @@ pub fn blossom_ag(rng: &mut Rng) -> AG {
     edges.truncate(12);
     AG { n, directed: false, edges }
 }
+
+/// Flow graphs for dominators: everything reachable from node 0, several merging paths and
+/// cycles entered at more than one node (irreducible regions), n = 5..7.
+pub fn flowgraph_ag(rng: &mut Rng) -> AG {
+    let n = 5 + rng.below(3);
+    let mut edges: Vec<(usize, usize, i64)> = vec![];
+    // a random spanning arborescence from 0 keeps every node reachable
+    let mut order: Vec<usize> = (1..n).collect();
+    rng.shuffle(&mut order);
+    let mut seen = vec![0usize];
+    for &v in &order {
+        let p = seen[rng.below(seen.len())];
+        edges.push((p, v, 1));
+        seen.push(v);
+    }
+    // extra edges: forward, cross and back
+    for _ in 0..(2 + rng.below(4)) {
+        let (a, b) = (rng.below(n), 1 + rng.below(n - 1));
+        if a != b { edges.push((a, b, 1)); }
+    }
+    let mut set = std::collections::HashSet::new();
+    edges.retain(|&(s, t, _)| set.insert((s, t)));
+    rng.shuffle(&mut edges);
+    AG { n, directed: true, edges }
+}
+
+/// Undirected cactus-like graphs: cycles glued at cut vertices, pendant edges, occasional self-loop
+/// or parallel edge; random edge order and orientation (articulation points).
+pub fn cactus_ag(rng: &mut Rng) -> AG {
+    let mut edges: Vec<(usize, usize, i64)> = vec![];
+    let mut n = 1;
+    let blocks = 2 + rng.below(3);
+    for _ in 0..blocks {
+        let attach = rng.below(n);
+        let len = 1 + rng.below(3); // new nodes in this block
+        let first = n;
+        n += len;
+        if len == 1 {
+            edges.push((attach, first, 1)); // pendant edge
+        } else {
+            // a cycle attach - first - ... - last - attach
+            edges.push((attach, first, 1));
+            for v in first..first + len - 1 { edges.push((v, v + 1, 1)); }
+            edges.push((first + len - 1, attach, 1));
+        }
+    }
+    if rng.chance(1, 4) { let v = rng.below(n); edges.push((v, v, 1)); }
+    if rng.chance(1, 4) { let e = edges[rng.below(edges.len())]; edges.push(e); }
+    let mut p: Vec<usize> = (0..n).collect();
+    rng.shuffle(&mut p);
+    let mut edges: Vec<(usize, usize, i64)> = edges.into_iter().map(|(a, b, w)| if rng.chance(1, 2) { (p[a], p[b], w) } else { (p[b], p[a], w) }).collect();
+    rng.shuffle(&mut edges);
+    AG { n, directed: false, edges }
+}
+
+/// Irreducible flow graphs: a strongly connected region entered from the root at two or three
+/// different nodes through paths of different length (dominator fixpoints need several passes).
+pub fn irreducible_ag(rng: &mut Rng) -> AG {
+    let r = 3 + rng.below(2);                 // region size
+    let entries = 2 + rng.below(2).min(r - 2);
+    let mut edges: Vec<(usize, usize, i64)> = vec![];
+    let mut n = 1;                             // node 0 = root
+    let region: Vec<usize> = (n..n + r).collect();
+    n += r;
+    // region: a cycle plus random chords in both directions
+    let mut ord = region.clone();
+    rng.shuffle(&mut ord);
+    for i in 0..r { edges.push((ord[i], ord[(i + 1) % r], 1)); }
+    for _ in 0..rng.below(3) { let (a, b) = (ord[rng.below(r)], ord[rng.below(r)]); if a != b { edges.push((a, b, 1)); } }
+    // entry paths of length 1 or 2 into distinct region nodes
+    let mut targets = region.clone();
+    rng.shuffle(&mut targets);
+    for k in 0..entries {
+        if rng.chance(1, 2) || n >= 8 {
+            edges.push((0, targets[k], 1));
+        } else {
+            edges.push((0, n, 1));
+            edges.push((n, targets[k], 1));
+            n += 1;
+        }
+    }
+    // sometimes an exit node
+    if rng.chance(1, 2) && n < 8 { edges.push((ord[rng.below(r)], n, 1)); n += 1; }
+    let mut set = std::collections::HashSet::new();
+    edges.retain(|&(s, t, _)| set.insert((s, t)));
+    rng.shuffle(&mut edges);
+    // rename everything except the root so that index order and structure are unrelated
+    let mut p: Vec<usize> = (1..n).collect();
+    rng.shuffle(&mut p);
+    let name = |x: usize| if x == 0 { 0 } else { p[x - 1] };
+    AG { n, directed: true, edges: edges.into_iter().map(|(a, b, w)| (name(a), name(b), w)).collect() }
+}
